@@ -797,38 +797,42 @@ func (m *Manager) computeMedianFee() types.Currency {
 	return *m.txpool.medianFee
 }
 
-func (m *Manager) computeParentMap() map[types.Hash256]int {
-	parentMap := make(map[types.Hash256]int)
+// computeParentMap maps the ID of each element created by a pool transaction
+// to the position of that transaction. The v1 and v2 transactions live in
+// separate slices, so each gets its own map.
+func (m *Manager) computeParentMap() (v1Parents, v2Parents map[types.Hash256]int) {
+	v1Parents = make(map[types.Hash256]int)
 	for index, txn := range m.txpool.txns {
 		for i := range txn.SiacoinOutputs {
-			parentMap[types.Hash256(txn.SiacoinOutputID(i))] = index
+			v1Parents[types.Hash256(txn.SiacoinOutputID(i))] = index
 		}
 		for i := range txn.SiafundInputs {
-			parentMap[types.Hash256(txn.SiafundClaimOutputID(i))] = index
+			v1Parents[types.Hash256(txn.SiafundClaimOutputID(i))] = index
 		}
 		for i := range txn.SiafundOutputs {
-			parentMap[types.Hash256(txn.SiafundOutputID(i))] = index
+			v1Parents[types.Hash256(txn.SiafundOutputID(i))] = index
 		}
 		for i := range txn.FileContracts {
-			parentMap[types.Hash256(txn.FileContractID(i))] = index
+			v1Parents[types.Hash256(txn.FileContractID(i))] = index
 		}
 	}
+	v2Parents = make(map[types.Hash256]int)
 	for index, txn := range m.txpool.v2txns {
 		txid := txn.ID()
 		for i := range txn.SiacoinOutputs {
-			parentMap[types.Hash256(txn.SiacoinOutputID(txid, i))] = index
+			v2Parents[types.Hash256(txn.SiacoinOutputID(txid, i))] = index
 		}
 		for _, sfi := range txn.SiafundInputs {
-			parentMap[types.Hash256(types.SiafundOutputID(sfi.Parent.ID).V2ClaimOutputID())] = index
+			v2Parents[types.Hash256(types.SiafundOutputID(sfi.Parent.ID).V2ClaimOutputID())] = index
 		}
 		for i := range txn.SiafundOutputs {
-			parentMap[types.Hash256(txn.SiafundOutputID(txid, i))] = index
+			v2Parents[types.Hash256(txn.SiafundOutputID(txid, i))] = index
 		}
 		for i := range txn.FileContracts {
-			parentMap[types.Hash256(txn.V2FileContractID(txid, i))] = index
+			v2Parents[types.Hash256(txn.V2FileContractID(txid, i))] = index
 		}
 	}
-	return parentMap
+	return
 }
 
 func updateTxnProofs(txn *types.V2Transaction, updateElementProof func(*types.StateElement), numLeaves uint64) (valid bool) {
@@ -1146,7 +1150,7 @@ func (m *Manager) UnconfirmedParents(txn types.Transaction) []types.Transaction 
 	defer m.mu.Unlock()
 	m.revalidatePool()
 
-	parentMap := m.computeParentMap()
+	parentMap, _ := m.computeParentMap()
 	var parents []types.Transaction
 	seen := make(map[int]bool)
 	check := func(id types.Hash256) {
@@ -1199,7 +1203,7 @@ func (m *Manager) V2TransactionSet(basis types.ChainIndex, txn types.V2Transacti
 	m.revalidatePool()
 
 	// get the transaction's parents
-	parentMap := m.computeParentMap()
+	_, parentMap := m.computeParentMap()
 	var parents []types.V2Transaction
 	seen := make(map[int]bool)
 	check := func(id types.Hash256) {
